@@ -31,7 +31,6 @@ theorem Inv.filter_dead {s : State} (hi : Inv s) (p : Key → Bool)
 
 theorem rmAnn_inv (s : State) (r : Ref) (hi : Inv s) : Inv (s.rmAnn r).2 := by
   unfold State.rmAnn
-  simp only []
   split
   · rename_i s1 hs
     simp only [Option.bind_eq_some_iff] at hs
